@@ -238,12 +238,29 @@ func opLocksWalk(helper string, g *graph.G, walk []int) (divs []olDiv, infra err
 				return
 			}
 		case "TBody":
-			o.cmd("R timer:body")
-			if !o.waitAt("timer:done", olWait) {
-				stuck(i, "silence timer", "did not finish")
-				return
+			// The timer's function re-arms itself instead of un-muting when it finds that output was
+			// suppressed less than a pause ago (a firing that was parked at its gate while a later
+			// chunk was suppressed): follow it until it un-mutes.
+			announced := false
+			for round := 0; round < 4 && !announced; round++ {
+				if round > 0 {
+					if !o.waitAt("timer:lock", olWait) {
+						break
+					}
+					o.cmd("R timer:lock")
+					if !o.waitAt("timer:body", olWait) {
+						stuck(i, "silence timer", "did not get the write lock")
+						return
+					}
+				}
+				o.cmd("R timer:body")
+				if !o.waitAt("timer:done", olWait) {
+					stuck(i, "silence timer", "did not finish")
+					return
+				}
+				announced = o.waitAt("log:lock", 400*time.Millisecond)
 			}
-			if !o.waitAt("log:lock", olWait) {
+			if !announced {
 				div(i, "never-unmutes", "the silence timer ran after a full pause without shell output and did not announce the end of the mute")
 				return
 			}
